@@ -15,6 +15,7 @@ CONSTANTS
   LoadLocks = FALSE
   SaveLocks = TRUE
   TruncFirst = FALSE
+  UnlinkLockWhenFinal = FALSE
   StatBeforeLock = FALSE
   FreshUpdates = FALSE
   Reread = TRUE
